@@ -27,17 +27,23 @@ theorem getPlan_eq : getPlan = some ⟨[.readRoot], [.readVal], .value, []⟩ :=
 
 theorem containsPlan_eq : containsPlan = some ⟨[.readRoot], [], .true_, []⟩ := by decide
 
-theorem iterShape_eq : iterShape = true := by decide
+/-- every function on the path of a range reader (`forwardIterator.Next`, `backwardIterator.Next`, `lost`,
+`valueUnchecked`, `Key`, `cursor.Next`, `Prev`, `seek`, `find`, the six `Seek*`, `leftmostLeaf`, `rightmostLeaf`,
+`leaf`, `btree.Cursor`) has, statement for statement, the text the machine `itNext` implements — in particular
+the in-range test on the key stands before `v := iter.c.valueUnchecked()`, and `cursor.Next` / `Prev` read no
+value slot. -/
+theorem scanShape_eq : scanShape = true := by decide
 
 def _root_.Juniper.Model.BTreeAccess.Op.isSearch : Op K V → Bool
-  | .iter _ _ _ _ => false
+  | .scan _ _ _ _ _ => false
   | _ => true
 
 theorem start_search (op : Op K V) (h : op.isSearch = true) : start op = .run [.readRoot] true Regs.init .unit := by
   cases op <;> simp [Op.isSearch] at h <;> simp [start, planOf, getPlan_eq, containsPlan_eq, putPlan_eq, mk]
 
-theorem start_iter (x i : Nat) (g : Int) (ck : K) : start (.iter x i g ck : Op K V) = .lostGen x i := by
-  simp [start, iterShape_eq]
+theorem start_scan (fwd : Bool) (sk : SeekKind) (skey : K) (stop : Option (CmpOp × K)) (limit : Nat) :
+    start (.scan fwd sk skey stop limit : Op K V) = .it .sRoot1 (ItSt.init limit) := by
+  simp [start, scanShape_eq]
 
 theorem foundAt_get (k : K) (x idx : Nat) :
     foundAt (.get k : Op K V) x idx = .run [.readVal] false { (Regs.init : Regs K V) with curr := some x, idx := idx } (.val none) := by
@@ -88,7 +94,16 @@ def expected (cmp : K → K → Int) (t : Tree K V) : Op K V → Res V
   | .get k => .val (get cmp t k)
   | .contains k => .bool (contains cmp t k)
   | .put _ _ => .unit
-  | .iter x i _ ck => .val (valueAt t ⟨x, i, ck⟩)
+  | .scan _ _ _ _ _ => .unit
+
+/-- IF `(x, i)` is a live slot of the tree, it holds the key `k` -/
+def KeyAt (t : Tree K V) (x : Nat) (i : Int) (k : K) : Prop :=
+  ∀ y, Sub t.root y → y.id = x → ∀ h : i.toNat < y.kvs.length, y.kvs[i.toNat].1 = k
+
+/-- the cursor fields of a range reader belong together: the remembered key `c.k` was read from
+`c.curr.keys[c.i]` (they are only ever assigned together, by `c.k = c.curr.keys[c.i]`) -/
+def Settled (t : Tree K V) (st : ItSt K V) : Prop :=
+  ∀ x, st.curr = some x → ∃ k, st.k = some k ∧ KeyAt t x st.i k
 
 def Good (cmp : K → K → Int) (t : Tree K V) (op : Op K V) : PC K V → Prop
   | .run ops cont rg r =>
@@ -107,28 +122,26 @@ def Good (cmp : K → K → Int) (t : Tree K V) (op : Op K V) : PC K V → Prop
   | .full _ => False
   | .itest _ _ => False
   | .ikey _ _ => False
-  | .lostGen x i => ∃ g ck, op = .iter x i g ck
-  | .lostN x i => ∃ g ck, op = .iter x i g ck
-  | .lostKey x i => ∃ g ck, op = .iter x i g ck
-  | .itVal x i => ∃ g ck, op = .iter x i g ck
-  | .done r => r = expected cmp t op
+  | .it ph st => op.isSearch = false ∧ Settled t st ∧
+      (ph = .nVal → ∃ x k, st.curr = some x ∧ st.k = some k ∧ inRangeOf cmp op k = true)
+  | .done r => op.isSearch = true → r = expected cmp t op
 
-/-- side conditions on one goroutine: a `Put`'s key is present, an iterator is parked on a live slot
-holding its key -/
+/-- side condition on one goroutine: a `Put`'s key is present -/
 structure OpOK (cmp : K → K → Int) (t : Tree K V) (op : Op K V) : Prop where
   present : ∀ k v, op = .put k v → (slotOf cmp k t.root).isSome = true
-  parked : ∀ x i g ck, op = .iter x i g ck → ValPos cmp t.root ck x i
 
 theorem good_start (t : Tree K V) (op : Op K V) : Good cmp t op (start op) := by
   cases op with
-  | iter x i g ck => rw [start_iter]; exact ⟨g, ck, rfl⟩
+  | scan fwd sk skey stop limit =>
+    rw [start_scan]
+    exact ⟨rfl, fun x h => by simp [ItSt.init] at h, fun h => by cases h⟩
   | get k => rw [start_search _ rfl]; exact Or.inl ⟨rfl, rfl, rfl⟩
   | contains k => rw [start_search _ rfl]; exact Or.inl ⟨rfl, rfl, rfl⟩
   | put k v => rw [start_search _ rfl]; exact Or.inl ⟨rfl, rfl, rfl⟩
 
 theorem start_not_done (op : Op K V) : (start op).isDone = false := by
   cases op with
-  | iter x i g ck => rw [start_iter]; rfl
+  | scan fwd sk skey stop limit => rw [start_scan]; rfl
   | get k => rw [start_search _ rfl]; rfl
   | contains k => rw [start_search _ rfl]; rfl
   | put k v => rw [start_search _ rfl]; rfl
@@ -158,16 +171,121 @@ theorem foundAt_good {t : Tree K V} {op : Op K V} (hsr : op.isSearch = true) {y 
   have hslot : slotOf cmp op.key t.root = some (id, idx) := by rw [← hp.slot]; exact slotOf_found hs
   have hlook : lookup cmp op.key t.root = kvs[idx]? := by rw [← hp.look]; exact lookup_found hs
   cases op with
-  | iter x i g ck => simp [Op.isSearch] at hsr
+  | scan fwd sk skey stop limit => simp [Op.isSearch] at hsr
   | get k => rw [foundAt_get]; exact Or.inr ⟨id, rfl, rfl, hslot, Or.inl ⟨k, rfl, rfl⟩⟩
   | put k v => rw [foundAt_put]; exact Or.inr ⟨id, rfl, rfl, hslot, Or.inr ⟨k, v, rfl, rfl, rfl⟩⟩
   | contains k =>
     rw [foundAt_contains]
     obtain ⟨hi, _⟩ := searchNode_found_key hs
-    simp only [Good, expected, contains]
+    intro _
+    simp only [expected, contains]
     simp only [Op.key] at hlook
     simp only [Node.kvs] at hi
     rw [hlook, List.getElem?_eq_getElem hi]; rfl
+
+/-! ## the range reader: one step -/
+
+theorem good_it_of {t : Tree K V} {op : Op K V} (hns : op.isSearch = false) {st : ItSt K V} (hst : Settled t st)
+    {ph : Ph} (hph : ph ≠ .nVal) : Good cmp t op (.it ph st) :=
+  ⟨hns, hst, fun h => absurd h hph⟩
+
+theorem good_done_of {t : Tree K V} {op : Op K V} (hns : op.isSearch = false) (r : Res V) : Good cmp t op (.done r) := by
+  intro h; rw [hns] at h; cases h
+
+theorem good_iterTop {t : Tree K V} {op : Op K V} (hns : op.isSearch = false) {st : ItSt K V} (hst : Settled t st) :
+    Good cmp t op (iterTop st) := by
+  unfold iterTop
+  split
+  · exact good_it_of hns hst (by intro h; cases h)
+  · exact good_it_of hns (fun x h => hst x h) (by intro h; cases h)
+
+theorem settled_none {t : Tree K V} (st : ItSt K V) : Settled t { st with curr := none } := by
+  intro x h; cases h
+
+/-- the cut-off test `iter.inRange != nil && !iter.inRange(k)` (regenerated, both directions) failing means the key is
+in range -/
+theorem inRange_of_not_stops (op : Op K V) (k : K)
+    (h : iterStops (opFwd op) (hasPred op) (inRangeOf cmp op k) = false) : inRangeOf cmp op k = true := by
+  have g : ∀ f r, iterStops f true r = !r := by intro f r; cases f <;> cases r <;> decide
+  cases op with
+  | scan fwd sk skey stop limit =>
+    cases stop with
+    | none => rfl
+    | some s =>
+      obtain ⟨o, key⟩ := s
+      simp only [hasPred, Option.isSome_some, g] at h
+      simpa using h
+  | _ => rfl
+
+/-- a step of a range reader on a memory that still holds `t`'s skeleton: the cursor fields stay together, and
+the value slot is only approached with a key that passed the in-range test -/
+theorem itGood_next {t : Tree K V} {op : Op K V} {m : Mem K V} (hf : Frozen m t) {ph : Ph} {st : ItSt K V}
+    (hg : Good cmp t op (.it ph st)) : Good cmp t op (itNext cmp op m ph st) := by
+  obtain ⟨hns, hst, hv⟩ := hg
+  have D : ∀ r, Good cmp t op (.done r) := good_done_of hns
+  have I : ∀ ph', ph' ≠ Ph.nVal → Good cmp t op (.it ph' st) := fun ph' h => good_it_of hns hst h
+  have T : Good cmp t op (iterTop st) := good_iterTop hns hst
+  have S0 : Settled t { st with curr := none } := settled_none st
+  cases ph with
+  | rdK x i =>
+    simp only [itNext]
+    by_cases hi0 : i < 0
+    · simp only [hi0, if_true]; exact D _
+    · simp only [hi0, if_false]
+      cases hk : m.key x i.toNat with
+      | none => exact D _
+      | some k' =>
+        have hset : Settled t { st with curr := some x, i := i, k := some k' } := by
+          intro x' hx'
+          simp only [Option.some.injEq] at hx'
+          subst hx'
+          refine ⟨k', rfl, ?_⟩
+          intro y hy hid hlt
+          have := (hf.struct y hy).2.1 i.toNat hlt
+          rw [hid, hk] at this
+          exact (Option.some.inj this).symm
+        simp only
+        split
+        · exact good_it_of hns hset (by intro h; cases h)
+        · exact good_iterTop hns hset
+  | sgen =>
+    simp only [itNext]
+    repeat' split
+    all_goals first
+      | exact D _
+      | exact good_it_of hns (fun x h => hst x h) (by intro h; cases h)
+      | exact good_iterTop hns (fun x h => hst x h)
+  | nGen =>
+    simp only [itNext]
+    cases hc : st.curr with
+    | none => exact I _ (by intro h; cases h)
+    | some x =>
+      simp only
+      by_cases hgen : st.cgen = m.gen
+      · simp only [hgen, if_true]
+        cases hk : st.k with
+        | none => exact D _
+        | some k =>
+          simp only
+          by_cases hstop : iterStops (opFwd op) (hasPred op) (inRangeOf cmp op k) = true
+          · simp only [hstop, if_true]; exact I _ (by intro h; cases h)
+          · simp only [hstop]
+            exact ⟨hns, hst, fun _ => ⟨x, k, hc, hk, inRange_of_not_stops op k (by simpa using hstop)⟩⟩
+      · simp only [hgen, if_false]; exact D _
+  | nVal =>
+    simp only [itNext]
+    repeat' split
+    all_goals first
+      | exact D _
+      | exact good_it_of hns (fun x h => hst x h) (by intro h; cases h)
+  | _ =>
+    simp only [itNext]
+    repeat' split
+    all_goals first
+      | exact D _
+      | exact T
+      | exact good_iterTop hns S0
+      | exact I _ (by intro h; cases h)
 
 /-! ## one step -/
 
@@ -191,7 +309,7 @@ theorem good_next {t : Tree K V} (hn : (ids t.root).Nodup) {op : Op K V} (hok : 
       obtain ⟨hi, _⟩ := searchNode_found_key hsn
       have := hv x rg.idx (by simp [accessOf, mopAccess, hcurr, rd]) y hs hid hi
       simp only [Good, expected, Juniper.Model.BTree.get, Bool.false_eq_true, if_false]
-      rw [this, hl, List.getElem?_eq_getElem hi]; rfl
+      rw [this, hl, List.getElem?_eq_getElem hi]; intro _; rfl
     · -- `curr.values[idx] = v; return`
       simp only [next, mopExec, hcurr, List.append_nil, mk]
       simp [Good, expected]
@@ -234,7 +352,7 @@ theorem good_next {t : Tree K V} (hn : (ids t.root).Nodup) {op : Op K V} (hok : 
     cases op with
     | get k => simp [Op.isPut] at hput
     | contains k => simp [Op.isPut] at hput
-    | iter x i g ck => simp [Op.isPut] at hput
+    | scan fwd sk skey stop limit => simp [Op.isPut] at hput
     | put k v =>
       have hpres := hok.present k v rfl
       have hsl := hp.slot
@@ -268,7 +386,7 @@ theorem good_next {t : Tree K V} (hn : (ids t.root).Nodup) {op : Op K V} (hok : 
       have hl : lookup cmp op.key t.root = none := by rw [← hp.look]; exact lookup_nochild hs hk
       have hsl : slotOf cmp op.key t.root = none := by rw [← hp.slot]; exact slotOf_nochild hs hk
       cases op with
-      | iter x i g ck => simp [Op.isSearch] at hsr
+      | scan fwd sk skey stop limit => simp [Op.isSearch] at hsr
       | get k => simp only [Op.key] at hl; simp [Good, nilRes, expected, Juniper.Model.BTree.get, hl]
       | contains k => simp only [Op.key] at hl; simp [Good, nilRes, expected, contains, hl]
       | put k v =>
@@ -282,28 +400,7 @@ theorem good_next {t : Tree K V} (hn : (ids t.root).Nodup) {op : Op K V} (hok : 
       refine ⟨hsr, c, ⟨hp.sub.snoc (List.mem_of_getElem? hk), ?_, ?_⟩, rfl, Nat.zero_le _⟩
       · rw [← hp.slot]; exact (slotOf_child hs hk).symm
       · rw [← hp.look]; exact (lookup_child hs hk).symm
-  | lostGen x i =>
-    obtain ⟨g, ck, rfl⟩ := hg
-    simp only [next]
-    split <;> exact ⟨g, ck, rfl⟩
-  | lostN x i =>
-    obtain ⟨g, ck, rfl⟩ := hg
-    obtain ⟨y, hs, rfl, hi, he⟩ := hok.parked x i g ck rfl
-    have hN := (hf.struct y hs).1
-    have : ¬ ((i : Int) ≥ (y.kvs.length : Int)) := by omega
-    simp only [next, hN, this, if_false]
-    exact ⟨g, ck, rfl⟩
-  | lostKey x i =>
-    obtain ⟨g, ck, rfl⟩ := hg
-    obtain ⟨y, hs, rfl, hi, he⟩ := hok.parked x i g ck rfl
-    have hK := (hf.struct y hs).2.1 i hi
-    simp only [next, hK, Op.key, he, if_true]
-    exact ⟨g, ck, rfl⟩
-  | itVal x i =>
-    obtain ⟨g, ck, rfl⟩ := hg
-    obtain ⟨y, hs, rfl, hi, he⟩ := hok.parked x i g ck rfl
-    have := hv y.id i (by simp [accessOf, rd]) y hs rfl hi
-    simp only [next, this, Good, expected, valueAt, findNode_of_sub hn hs, List.getElem?_eq_getElem hi, Option.map_some]
+  | it ph st => exact itGood_next hf hg
 
 /-- a `Put` of a present key never runs into a nil child on its descent -/
 theorem put_child_exists {t : Tree K V} {k : K} {v : V} (hok : OpOK cmp t (.put k v)) {y : Node K V} {idx : Nat}
@@ -330,10 +427,7 @@ theorem put_not_done {t : Tree K V} {k : K} {v : V} (hok : OpOK cmp t (.put k v)
   | full x => exact hg.elim
   | itest x j => exact hg.elim
   | ikey x j => exact hg.elim
-  | lostGen x i => obtain ⟨g, ck, h⟩ := hg; cases h
-  | lostN x i => obtain ⟨g, ck, h⟩ := hg; cases h
-  | lostKey x i => obtain ⟨g, ck, h⟩ := hg; cases h
-  | itVal x i => obtain ⟨g, ck, h⟩ := hg; cases h
+  | it ph st => obtain ⟨h, _⟩ := hg; cases h
   | run ops cont rg r =>
     rcases hg with ⟨hsr, rfl, rfl⟩ | ⟨x, rfl, hcurr, hslot, ⟨k', h, _⟩ | ⟨k', v', _, rfl, rfl⟩⟩
     · simp [next, mopExec, mk, hf.root, enter, PC.isDone]
@@ -370,12 +464,21 @@ theorem put_not_done {t : Tree K V} {k : K} {v : V} (hok : OpOK cmp t (.put k v)
     simp only [Option.map_some] at hC
     simp [next, hC, PC.isDone]
 
+/-- whose value slot `(x, i)` is, for the operation that approaches it: a search operation's (`Get`, `Contains`,
+`Put`) own key lives there; for a range reader, IF it is a live slot of the tree, the key stored there is in range -/
+def SlotKey (cmp : K → K → Int) (t : Tree K V) (op : Op K V) (x i : Nat) : Prop :=
+  (op.isSearch = true ∧ ValPos cmp t.root op.key x i) ∨
+  (op.isSearch = false ∧ ∀ y, Sub t.root y → y.id = x → ∀ h : i < y.kvs.length, inRangeOf cmp op y.kvs[i].1 = true)
+
+theorem _root_.Juniper.Model.BTreeAccess.Op.isPut_of_not_search {op : Op K V} (h : op.isSearch = false) : op.isPut = false := by
+  cases op <;> simp [Op.isSearch] at h <;> rfl
+
 /-- what a `Good` state accesses next: a read outside the value slots, or the value slot its own key
-owns (written iff the operation is a `Put`) -/
+owns (written iff the operation is a `Put`) resp. — a range reader — a value slot whose key is in range -/
 theorem access_class {t : Tree K V} {op : Op K V} (hok : OpOK cmp t op) {pc : PC K V} (hg : Good cmp t op pc)
     {a : Access} (ha : accessOf pc = some a) :
     (a.write = false ∧ ∀ x i, a.loc ≠ .node x (.val i)) ∨
-    (∃ x i, a.loc = .node x (.val i) ∧ ValPos cmp t.root op.key x i ∧ a.write = op.isPut) := by
+    (∃ x i, a.loc = .node x (.val i) ∧ SlotKey cmp t op x i ∧ a.write = op.isPut) := by
   cases pc with
   | done r => simp [accessOf] at ha
   | full x => exact hg.elim
@@ -386,9 +489,9 @@ theorem access_class {t : Tree K V} {op : Op K V} (hok : OpOK cmp t op) {pc : PC
     · simp only [accessOf, mopAccess, rd, Option.some.injEq] at ha; subst ha
       exact Or.inl ⟨rfl, by intro x i h; cases h⟩
     · simp only [accessOf, mopAccess, hcurr, rd, Option.some.injEq] at ha; subst ha
-      exact Or.inr ⟨x, rg.idx, rfl, valPos_of_slot hslot, rfl⟩
+      exact Or.inr ⟨x, rg.idx, rfl, Or.inl ⟨rfl, valPos_of_slot hslot⟩, rfl⟩
     · simp only [accessOf, mopAccess, hcurr, wr, Option.some.injEq] at ha; subst ha
-      exact Or.inr ⟨x, rg.idx, rfl, valPos_of_slot hslot, rfl⟩
+      exact Or.inr ⟨x, rg.idx, rfl, Or.inl ⟨rfl, valPos_of_slot hslot⟩, rfl⟩
   | test x i =>
     simp only [accessOf, rd, Option.some.injEq] at ha; subst ha
     exact Or.inl ⟨rfl, by intro x i h; cases h⟩
@@ -404,19 +507,28 @@ theorem access_class {t : Tree K V} {op : Op K V} (hok : OpOK cmp t op) {pc : PC
   | child x idx =>
     simp only [accessOf, rd, Option.some.injEq] at ha; subst ha
     exact Or.inl ⟨rfl, by intro x i h; cases h⟩
-  | lostGen x i =>
-    simp only [accessOf, rd, Option.some.injEq] at ha; subst ha
-    exact Or.inl ⟨rfl, by intro x i h; cases h⟩
-  | lostN x i =>
-    simp only [accessOf, rd, Option.some.injEq] at ha; subst ha
-    exact Or.inl ⟨rfl, by intro x i h; cases h⟩
-  | lostKey x i =>
-    simp only [accessOf, rd, Option.some.injEq] at ha; subst ha
-    exact Or.inl ⟨rfl, by intro x i h; cases h⟩
-  | itVal x i =>
-    obtain ⟨g, ck, rfl⟩ := hg
-    simp only [accessOf, rd, Option.some.injEq] at ha; subst ha
-    exact Or.inr ⟨x, i, rfl, hok.parked x i g ck rfl, rfl⟩
+  | it ph st =>
+    obtain ⟨hns, hst, hv⟩ := hg
+    by_cases hph : ph = .nVal
+    · subst hph
+      obtain ⟨x, k, hx, hk, hin⟩ := hv rfl
+      simp only [accessOf, itAccess, hx, rd, Option.some.injEq] at ha
+      subst ha
+      refine Or.inr ⟨x, st.i.toNat, rfl, ?_, by simp [Op.isPut_of_not_search hns]⟩
+      right
+      refine ⟨hns, fun y hy hid hlt => ?_⟩
+      obtain ⟨k', hk', hka⟩ := hst x hx
+      rw [hk] at hk'
+      cases hk'
+      rw [hka y hy hid hlt]
+      exact hin
+    · left
+      cases ph <;> first
+        | exact absurd rfl hph
+        | (simp only [accessOf, itAccess, rd, Option.some.injEq] at ha
+           subst ha
+           exact ⟨rfl, by intro x i h; cases h⟩)
+        | (simp [accessOf, itAccess] at ha)
 
 /-- the only write of a `Good` state is the `Put`'s value-slot write, after which it has returned -/
 theorem write_step {t : Tree K V} {op : Op K V} {pc : PC K V} (hg : Good cmp t op pc) (m : Mem K V) {l : Loc}
@@ -439,10 +551,12 @@ theorem write_step {t : Tree K V} {op : Op K V} {pc : PC K V} (hg : Good cmp t o
   | retn x => simp [accessOf, rd] at ha
   | leaf x idx => simp [accessOf, rd] at ha
   | child x idx => simp [accessOf, rd] at ha
-  | lostGen x i => simp [accessOf, rd] at ha
-  | lostN x i => simp [accessOf, rd] at ha
-  | lostKey x i => simp [accessOf, rd] at ha
-  | itVal x i => simp [accessOf, rd] at ha
+  | it ph st =>
+    have : ∀ a, itAccess ph st = some a → a.write = false := by
+      intro a h
+      cases ph <;> simp only [itAccess, rd] at h <;> (try split at h) <;> simp at h <;> (subst h; rfl)
+    have := this _ (by simpa [accessOf] using ha)
+    cases this
 
 /-- a step that is not a write leaves the memory alone -/
 theorem read_step_mem {t : Tree K V} {op : Op K V} {pc : PC K V} (hg : Good cmp t op pc) (m : Mem K V)
@@ -463,9 +577,6 @@ theorem read_step_mem {t : Tree K V} {op : Op K V} {pc : PC K V} (hg : Good cmp 
   | retn x => rfl
   | leaf x idx => simp only [next]; split <;> rfl
   | child x idx => simp only [next]; split <;> rfl
-  | lostGen x i => simp only [next]; split <;> rfl
-  | lostN x i => rfl
-  | lostKey x i => simp only [next]; split <;> rfl
-  | itVal x i => rfl
+  | it ph st => rfl
 
 end Juniper.Proofs.TreeAccess
